@@ -66,6 +66,9 @@ class SimGateway:
         self.server_seq = 0  # sequence counter of server->client data frames
         self._tcp_buf = b""
         self.hooks: dict[str, Any] = {}
+        # [(raw_cemi, seq[, extra log fields]), ...] delivered in the same callback as the next successful ConnectResponse
+        # (list: consumed once; callable(gw) -> list: asked at every handshake). Empty = previous behaviour.
+        self.behind_handshake: Any = []
         self.errors: list[str] = []  # simulator-internal errors (harness errors, never violations)
 
     def attach(self, loop: Any) -> None:
@@ -226,6 +229,25 @@ class SimGateway:
                 tr.protocol.datagram_received(raw, GW_ADDR)
             else:
                 tr.protocol.data_received(raw)
+            # data frames right behind the handshake: handed to the protocol in the SAME loop iteration
+            # as the ConnectResponse, i.e. before the client's connect() coroutine is resumed
+            items = self.behind_handshake
+            if callable(items):
+                items = items(self)
+            else:
+                self.behind_handshake = []
+            for it in items or []:
+                if tr.closed:
+                    break
+                extra = it[2] if len(it) > 2 else {}
+                req = TunnellingRequest(ch, it[1], it[0]) if is_tunnel else DeviceConfigurationRequest(ch, it[1], it[0])
+                f2 = KNXIPFrame.init_from_body(req)
+                r2 = f2.to_knx()
+                self._log("s2c", f2, r2, behind_handshake=True, **extra)
+                if tr.kind == "udp":
+                    tr.protocol.datagram_received(r2, GW_ADDR)
+                else:
+                    tr.protocol.data_received(r2)
 
         self.loop.call_later(delay, _deliver)
 
